@@ -51,9 +51,9 @@ func runAPIPart(r *ev.Run, part string, race bool, raceScope []string, timeout t
 	}
 	sub := ev.New(r.ID, r.Tier, r.Seed, r.Level)
 	sub.ClearProgress()
-	out := fmt.Sprintf("%s/run/%s/part-%s-%s.json", ev.Root, r.ID, part, r.Tier)
+	out := fmt.Sprintf("%s/part-%s-%s.json", ev.RunDir(r.ID), part, r.Tier)
 	os.Remove(out)
-	logPath := fmt.Sprintf("%s/run/%s/part-%s-%s.log", ev.Root, r.ID, part, r.Tier)
+	logPath := fmt.Sprintf("%s/part-%s-%s.log", ev.RunDir(r.ID), part, r.Tier)
 	res, err := child.Run(bin, []string{"apipart", r.ID, part, r.Tier, strconv.FormatInt(r.Seed, 10), out}, []string{"GORACE=halt_on_error=0"}, logPath, timeout)
 	if err != nil {
 		r.Internal("cannot run api part %s: %v", part, err)
@@ -204,7 +204,7 @@ func runAPIChild(c *Check, tier string) int {
 	}
 	probe := ev.New(c.ID, tier, seed(), c.Level)
 	probe.ClearProgress()
-	logPath := fmt.Sprintf("%s/run/%s/api-%s.log", ev.Root, c.ID, tier)
+	logPath := fmt.Sprintf("%s/api-%s.log", ev.RunDir(c.ID), tier)
 	env := []string{"GORACE=halt_on_error=0"}
 	res, err := child.Run(bin, []string{"api", c.ID, tier, strconv.FormatInt(seed(), 10)}, env, logPath, timeout)
 	if err != nil {
